@@ -121,6 +121,9 @@ def closure_alphabet(tier):
     out = [(hdr(0x00000280, 0x00010004, 0, seq=0), None), (hdr(0xFFFFFFE4, 0xFFFFFFFF, 0xFFFFFFFF, seq=7, rsvd=7, hub=7, deferred=1), None)]
     for n in range(nmax + 1):
         out.append((with_len(DATA_BASE, n), payload_bytes(n, n & 1)))
+        if tier != "quick" and n: out.append((with_len(DATA_BASE, n), payload_bytes(n, 1 - (n & 1))))
+    if tier != "quick":
+        out += [(hdr(0x00000004, 0x12345678, 0x9ABCDEF0, seq=5, hub=2), None), (hdr(0x0000000C, 0xFFFF0000, 0x0000FFFF, seq=2, delayed=1), None)]
     out.append((with_len(DATA_BASE[:6] + (1,) + DATA_BASE[7:], 5), payload_bytes(5, 0)))       # delayed: aborted payload
     out.append((with_len(DATA_BASE[:6] + (1,) + DATA_BASE[7:], 0), b""))
     return out
@@ -215,7 +218,7 @@ def build_loop():
 
 
 # ------------------------------------------------------------------------------------------------ the specification
-IDLE_RX = (None, -1, (), None, 0, 0, 0)
+IDLE_RX = (None, -1, (), None, 0, 0, 0, 0)
 DRAIN = 5         # wide mode: idle cycles observed after the packet before the path ends
 MAXVERDICT = 2    # cycles after the last word of a data packet by which packet_good must have been seen
 
@@ -228,7 +231,7 @@ class PacketSpec(Spec):
         ref.calibrate()
         self.loop = cfg["dut"] == "loop"
         self.wide = cfg["mode"] == "wide"
-        self.time_budget = 45 if tier == "quick" else 800
+        self.time_budget = 150 if tier == "quick" else 800      # wall clock on a shared machine; the BFS itself takes < 5 s of CPU
         self.n_validate = 2 if tier == "quick" else 5      # every replay re-elaborates the CRC-32 networks in amaranth.sim (~10 s CPU each)
         self.packets = wide_alphabet(tier, self.loop) if self.wide else closure_alphabet(tier)
         self._enc = {}
@@ -282,13 +285,15 @@ class PacketSpec(Spec):
             return ("gen", [hex(x) for x in h[:3]] + list(h[3:]), None if p is None else p.hex())
         return a
 
-    def drive(self, cur, p, generate, ready, spos):
+    def drive(self, cur, p, generate, ready, spos, last_p=-1):
         kw = dict(generate=generate, ready=ready)
+        # the header receiver compares the sequence number one cycle after DW3, which can be the request cycle of the next packet
+        if self.loop and last_p >= 0: kw["expected_sequence"] = self.packets[last_p][0][3]
         if p >= 0:
             h, _ = self.packets[p]
             kw.update(h_dw0=h[0], h_dw1=h[1], h_dw2=h[2], h_sequence_number=h[3], h_dw3_reserved=h[4], h_hub_depth=h[5],
                       h_delayed=h[6], h_deferred=h[7])
-            if self.loop: kw["expected_sequence"] = h[3]
+            if self.loop and last_p < 0: kw["expected_sequence"] = h[3]
             sw = self._sink[p]
             if spos < len(sw):
                 d, v, f, l = sw[spos]
@@ -303,13 +308,13 @@ class PacketSpec(Spec):
             if p >= 0: self.cover["packet_after_packet"] += 1
             p = a[1]
             encs = self.encodings(p)
-            o = self.drive(cur, p, 1, 0, 0)
+            o = self.drive(cur, p, 1, 0, 0, env[1])
             self.check_idle(o, env)
             if self.loop: rx = self.rx_monitor(o, rx, p, None)
             self.cover["request"] += 1
             return (1, p, 0, (1 << len(encs)) - 1, 0, 0, rx)
         if a[0] == "idle":
-            o = self.drive(cur, -1, 0, 1, 0)
+            o = self.drive(cur, -1, 0, 1, 0, p)
             self.check_idle(o, env)
             if self.loop: rx = self.rx_monitor(o, rx, p, None)
             return (phase, p, 0, 0, 0, wait + 1 if phase == 2 else 0, rx)
@@ -323,7 +328,7 @@ class PacketSpec(Spec):
         if o.sink_ready and spos < len(sw):
             spos += 1
             self.cover["payload_word_taken"] += 1
-        transferred = None
+        transferred = presented = None
         n = len(encs[0])
         if not o.valid:
             if o.done: raise Violation("tx:done-mismatch", dict(done=1, valid=0, word_index=idx))
@@ -341,6 +346,10 @@ class PacketSpec(Spec):
                 raise Violation("tx:" + part, dict(word_index=idx, got=[hex(got[0]), got[1]], expected=[hex(want[0]), want[1]],
                                                    header=[hex(x) for x in h[:3]] + list(h[3:]), payload=payload.hex()))
             encmask = keep
+            presented = idx
+            if idx == 5 and is_data(h) and not h[6]:
+                self.cover["dpp_%dB_tail" % (len(payload) % 4)] += 1
+                if not payload: self.cover["zlp"] += 1
             last = idx == n - 1
             if o.done != (1 if (ready and last) else 0):
                 if last and ready and not is_data(h):
@@ -353,14 +362,10 @@ class PacketSpec(Spec):
                 idx += 1
             else:
                 self.cover["stalled"] += 1
-        if self.loop: rx = self.rx_monitor(o, rx, p, transferred)
+        if self.loop: rx = self.rx_monitor(o, rx, p, transferred, presented)
         if idx == n:
             self.cover["packet_sent"] += 1
-            if is_data(h):
-                if h[6]: self.cover["aborted_dpp"] += 1
-                else:
-                    self.cover["dpp_%dB_tail" % (len(payload) % 4)] += 1
-                    if not payload: self.cover["zlp"] += 1
+            if is_data(h) and h[6]: self.cover["aborted_dpp"] += 1
             self.outcomes.add(p)
             return (2 if self.wide else 0, p, 0, 0, 0, 0, rx)
         return (1, p, idx, encmask, spos, wait, rx)
@@ -371,18 +376,21 @@ class PacketSpec(Spec):
         if o.done: raise Violation("tx:done-mismatch", dict(done=1, idle=True))
 
     # ---- receivers (loop only)
-    # rx = (hdr_due, dpkt, got, verdict_age, good, newhdr, crc_done)
+    # rx = (hdr_due, dpkt, got, verdict_age, good, good_prev, crc_done, after_abort)   (after_abort: the packet before dpkt was an aborted DPP)
     #   hdr_due: None or (age, packet) - a header report is due          dpkt: the packet the data receiver is (last) concerned with
     #   got: payload bytes delivered so far for dpkt                       verdict_age: None or cycles since the last word of dpkt
-    #   good / newhdr: packet_good / new_header seen for dpkt              crc_done: the last CRC-32 byte of dpkt has been transferred
+    #   good: packet_good seen for dpkt; good_prev: packet_good was high in the previous cycle
+    #   crc_done: the word with the last CRC-32 byte of dpkt has been presented
+    #   DataPacketReceiver.header is compared with the header sent when packet_good is reported (new_header is only observed:
+    #   nothing in the statement depends on it)
     def expected_header_fields(self, p):
         h = self.packets[p][0]
         dw3 = ref.header_words(*h)[4][0]
         return dict(dw0=h[0], dw1=h[1], dw2=h[2], crc16=dw3 & 0xFFFF, sequence_number=h[3], dw3_reserved=h[4], hub_depth=h[5],
                     delayed=h[6], deferred=h[7], crc5=dw3 >> 27)
 
-    def rx_monitor(self, o, rx, p, transferred):
-        hdr_due, dpkt, got, verdict_age, good, newhdr, crc_done = rx
+    def rx_monitor(self, o, rx, p, transferred, presented=None):
+        hdr_due, dpkt, got, verdict_age, good, good_prev, crc_done, after_abort = rx
         if dpkt >= 0:
             h, payload = self.packets[dpkt]
             payload = payload or b""
@@ -392,9 +400,10 @@ class PacketSpec(Spec):
         if transferred:
             idx, n = transferred
             if idx == 4: hdr_due = (0, p)
-            if idx > 0 and data_pkt:
-                if idx == 5 + (len(payload) + 4 + 3) // 4: crc_done = 1
-                if idx == n - 1: verdict_age = 0
+            if idx > 0 and data_pkt and idx == n - 1: verdict_age = 0
+        # the word holding the last CRC-32 byte is being presented by the transmitter (a verdict taken while that word is still
+        # stalled is early but not wrong: the statement fixes no timing)
+        if presented is not None and dpkt == p and data_pkt and presented >= 5 + (len(payload) + 4 + 3) // 4: crc_done = 1
         # header receiver
         if o.bad_packet or o.bad_sequence:
             raise Violation("roundtrip:header-rejected", dict(bad_packet=o.bad_packet, bad_sequence=o.bad_sequence, packet=self.label(("gen", p))))
@@ -410,17 +419,9 @@ class PacketSpec(Spec):
             hdr_due = (hdr_due[0] + 1, hdr_due[1])
         # data receiver
         if not aborted:
-            what = [nm for nm, v in (("new_header", o.new_header), ("payload", o.rx_valid), ("packet_good", o.packet_good), ("packet_bad", o.packet_bad)) if v]
+            what = [nm for nm, v in (("payload", o.rx_valid), ("packet_good", o.packet_good), ("packet_bad", o.packet_bad)) if v]
             if what and not data_pkt:
                 raise Violation("roundtrip:spurious-data-packet", dict(strobes=what, packet=self.label(("gen", dpkt)) if dpkt >= 0 else None))
-            if o.new_header:
-                dws = [0, 0, 0]
-                for f, w, lsb, width in DPH_FIELDS: dws[w] |= (getattr(o, "dh_" + f) & ((1 << width) - 1)) << lsb
-                gotf = {f: getattr(o, "dh_" + f) for f in HDR_FIELDS[3:]}
-                gotf.update(dw0=dws[0], dw1=dws[1], dw2=dws[2])
-                exp = self.expected_header_fields(dpkt)
-                if gotf != exp: raise Violation("roundtrip:data-header-mismatch", dict(sent=exp, received=gotf))
-                newhdr = 1
             if o.rx_valid:
                 nb = {1: 1, 3: 2, 7: 3, 15: 4}.get(o.rx_valid)
                 if nb is None or good: raise Violation("roundtrip:payload-mismatch", dict(valid_mask=o.rx_valid, after_packet_good=good))
@@ -429,20 +430,28 @@ class PacketSpec(Spec):
                     raise Violation("roundtrip:payload-mismatch", dict(sent=payload.hex(), received=bytes(got).hex()))
             if o.packet_bad:
                 raise Violation("roundtrip:packet-bad-after-good" if good else "roundtrip:packet-bad", dict(payload=payload.hex(), payload_len=len(payload)))
+            if o.packet_good and good_prev:
+                raise Violation("roundtrip:packet-good-stuck", dict(payload=payload.hex(), payload_len=len(payload)))
             if o.packet_good and not good:
                 if not crc_done: raise Violation("roundtrip:premature-packet-good", dict(payload=payload.hex()))
                 if bytes(got) != payload: raise Violation("roundtrip:payload-mismatch", dict(sent=payload.hex(), received=bytes(got).hex(), at="packet_good"))
-                if not newhdr: raise Violation("roundtrip:data-header-not-reported", dict(packet=self.label(("gen", dpkt))))
+                dws = [0, 0, 0]
+                for f, w, lsb, width in DPH_FIELDS: dws[w] |= (getattr(o, "dh_" + f) & ((1 << width) - 1)) << lsb
+                gotf = {f: getattr(o, "dh_" + f) for f in HDR_FIELDS[3:]}
+                gotf.update(dw0=dws[0], dw1=dws[1], dw2=dws[2])
+                exp = self.expected_header_fields(dpkt)
+                if gotf != exp: raise Violation("roundtrip:data-header-mismatch", dict(sent=exp, received=gotf))
                 self.cover["data_round_trip_%dB_tail" % (len(payload) % 4)] += 1
                 good, got = 1, ()
             if verdict_age is not None:
                 if good: verdict_age = None
-                elif verdict_age >= MAXVERDICT: raise Violation("roundtrip:no-good-verdict", dict(payload=payload.hex(), payload_len=len(payload)))
+                elif verdict_age >= MAXVERDICT:
+                    raise Violation("roundtrip:no-good-verdict" + (":after-aborted-dpp" if after_abort else ""), dict(payload=payload.hex(), payload_len=len(payload)))
                 else: verdict_age += 1
         if transferred and transferred[0] == 0:
             if verdict_age is not None: raise Violation("roundtrip:no-good-verdict", dict(payload=payload.hex(), payload_len=len(payload)))
-            dpkt, got, verdict_age, good, newhdr, crc_done = p, (), None, 0, 0, 0
-        return (hdr_due, dpkt, got, verdict_age, good, newhdr, crc_done)
+            dpkt, got, verdict_age, good, crc_done, after_abort = p, (), None, 0, 0, int(aborted)
+        return (hdr_due, dpkt, got, verdict_age, good, int(bool(o.packet_good) and not aborted), crc_done, after_abort)
 
     def goals(self):
         g = ["request", "packet_sent", "stalled", "payload_word_taken", "zlp", "aborted_dpp", "dpp_0B_tail", "dpp_1B_tail", "dpp_2B_tail", "dpp_3B_tail"]
